@@ -64,8 +64,16 @@ def two_module_sort(binp, rep, thorough, docs=None):
         rng.shuffle(gb["elems"])
         # the list of MODULEs is sorted by name as well: in every other file the first module has the greater name
         mo.append({"id": i, "a": gm.render2(ga, gb, "m" if i % 2 else "zz"), "ops": ["sort", "sort"], "want_text": True})
+    if not docs:
+        # modules whose elements hold reference lists in unsorted order (the cases of MC_Check): sort() must not touch them
+        res = vlib.tlc("MC_Check", workers=8, coverage=False, timeout=1800)
+        cc = [c for c in res.prints("CASE")]
+        for j in range(1, len(cc), 1 if thorough else 9):
+            g0, g1 = graphlib.abstract_to_graph(cc[j - 1]["G"]), graphlib.abstract_to_graph(cc[j]["G"])
+            g0["elems"].reverse()
+            mo.append({"id": len(mo), "a": gm.render2(g0, g1, "zz" if j % 2 else "m"), "ops": ["sort", "sort"], "want_text": True})
     out = graphlib.run_ops(binp, mo, "sort2")
-    nev = 0
+    allev, owner = [], []
     for i, c in enumerate(mo):
         r = out.get(i)
         if r is None or "snaps" not in r:
@@ -84,16 +92,35 @@ def two_module_sort(binp, rep, thorough, docs=None):
             g1 = gm.flat(graphlib.graph_of_tree(sn[1]["tree"], gm.module_index(sn[1]["tree"], mname)))
             if sorted(map(json.dumps, g0["elems"])) != sorted(map(json.dumps, g1["elems"])) or sorted(map(json.dumps, g0["refs"])) != sorted(map(json.dumps, g1["refs"])):
                 rep.violation("sort:content:two-modules", f"sort() changed the content of module {k} of a file with two MODULEs", {"kind": "sort2", "a": c["a"]})
+            # element by element: nothing inside an element is reordered or changed (the layout data of the element aside)
+            import parsercases as pc
+            m0 = gm.module_of(sn[0]["tree"], gm.module_index(sn[0]["tree"], mname))
+            m1 = gm.module_of(sn[1]["tree"], gm.module_index(sn[1]["tree"], mname))
+            for field, v0 in m0.items():
+                v1 = m1.get(field)
+                if field in ("a2lcomment", "__block_info") or not isinstance(v0, list):
+                    continue
+                key = lambda e: json.dumps(pc.strip_layout(e), sort_keys=True)
+                if sorted(map(key, v0)) != sorted(map(key, v1 or [])):
+                    rep.violation(f"sort:element-content:{field}", f"sort() changed something inside an element of the list {field}", {"kind": "sort2", "a": c["a"]})
             ws = [dict(module_children(x["text"]))[mname] for x in sn]
             rank = {n: j for j, n in enumerate(sorted({x[1] for x in ws[0]}))}
             ws = [[[kd, rank.get(n, -1)] for kd, n in w] for w in ws]
             evs += [{"ev": "load", "written": ws[0]}, {"ev": "sort", "written": ws[1], "panic": False}, {"ev": "sort", "written": ws[2], "panic": False}]
             if ws[1] != ws[2]:
                 rep.violation("sort:idempotent:two-modules", "a second sort() changes the written order", {"kind": "sort2", "a": c["a"]})
-        ok, irej = c15.ideal_accepts(evs)
-        nev += len(evs)
-        if not ok:
-            rep.violation("sort:order:two-modules", f"sort() of a file with two MODULEs violates IdealSortFull (event {irej[0]} of load/sort/sort per module)", {"kind": "sort2", "a": c["a"]})
+        allev += evs
+        owner += [i] * len(evs)
+    nev = len(allev)
+    while allev:
+        ok, irej = c15.ideal_accepts(allev)
+        if ok:
+            break
+        d = irej[0] - 1
+        i = owner[d]
+        rep.violation("sort:order:two-modules", f"sort() of a file with two MODULEs violates IdealSortFull (event {allev[d]['ev']} of load/sort/sort per module)", {"kind": "sort2", "a": mo[i]["a"]})
+        k = next((j for j in range(d, len(owner)) if owner[j] != i), len(owner))
+        allev, owner = allev[k:], owner[k:]
     return len(mo), nev
 
 
